@@ -371,6 +371,9 @@ func scenarios(thorough bool) []scenario {
 		defer b.Reset()
 		o := t.OF
 		b.Func(t.F).Origin(&o).Apply(func(a int, s string) int {
+			if vk.InCallAlready() {
+				return o(a, s) // re-entered because the placeholder's relocated stack check fired (C03's known finding)
+			}
 			tr.add("  cb F(%d,%q) -> origin", a, s)
 			return o(a, s) + 1000
 		})
